@@ -177,7 +177,7 @@ theorem life_barrier_after_final_pass {s : State} {es : List Ev} (hsan : ∀ k, 
     · rcases h.ctl.threads.closerThread c with ⟨h1, _⟩ | ⟨_, h2⟩
       · by_cases hc : c = w
         · subst hc; rw [h1] at hw; simp [ph] at hw
-        · rcases h.ctl.others c (by rw [hwin]; intro e; exact hc (Option.some.inj e).symm) with h3 | h3 <;>
+        · rcases h.ctl.others c (by rw [hwin]; intro e; exact hc (Option.some.inj e).symm) with h3 | h3 | h3 <;>
             rw [h3] at h1 <;> cases h1
       · exact h2
     · rw [ha] at ht; cases ht
@@ -381,7 +381,7 @@ theorem life_close_barrier {s : State} {es : List Ev} (hsan : ∀ k, san (san k)
     intro c hc
     by_cases he : c = w
     · subst he; rw [hret] at hc; cases hc
-    · rcases h.ctl.others c (by rw [hwin]; intro e; exact he (Option.some.inj e).symm) with h3 | h3 <;>
+    · rcases h.ctl.others c (by rw [hwin]; intro e; exact he (Option.some.inj e).symm) with h3 | h3 | h3 <;>
         rw [h3] at hc <;> cases hc
   have hno : ¬ ReacquireInFlight s := no_reacquire_after_purge h hpur
   refine ⟨?_, hno, preRoot_issued hsan hr, ?_, ?_, hex, ?_, ?_, hnp, hpur, ?_⟩
@@ -403,6 +403,58 @@ theorem life_close_barrier {s : State} {es : List Ev} (hsan : ∀ k, san (san k)
     · exact h2
   · rw [h.ctl.closed_iff, hwin]; rfl
 
+/-- **C08 over a live registry, every call is a barrier (repair D17).**  For EVERY `Close` call `t` that has
+returned — the winning call (`returned r`) or a call that lost the CAS (`returnedNil`) — the whole conclusion of
+`life_close_barrier` holds: a losing call returns only after `closeDone` was closed (`Ctl.nil_cd`), which only the
+winning call does, as it returns (`Ctl.cd_iff`). -/
+theorem life_every_close_call_is_a_barrier {s : State} {es : List Ev} (hsan : ∀ k, san (san k) = san k) {hl cl : Bool}
+    {er : Option Nat} (hr : run san (init san hl cl er) es = some s) (t : Nat)
+    (hret : (∃ r, s.closers t = .returned r) ∨ s.closers t = .returnedNil) :
+    (∀ tok ∈ s.reg.delivered ++ allCells s.reg ++ allPending s.reg ++ s.reg.dropped, Barrier s tok →
+      tok ∈ s.reg.delivered ∧ (s.reg.delivered.map (·.id)).count tok.id = 1) ∧
+    ¬ ReacquireInFlight s ∧
+    (∀ id ∈ s.preRoot, ∃ tok ∈ s.reg.delivered ++ allCells s.reg ++ allPending s.reg ++ s.reg.dropped, tok.id = id) ∧
+    (∃ n m rest, s.log = if cl then .reporterClose n :: .flush m :: rest else .flush m :: rest) ∧
+    countRC s.log = (if cl then 1 else 0) ∧
+    s.loop = .exited ∧ pcOf s.reg loopTid = .idle ∧ (∀ c, pcOf s.reg (closerTid c) = .idle) ∧
+    (∀ c, s.closers c ≠ .pass) ∧ s.purged = true ∧ s.rootClosed = true := by
+  rcases hret with ⟨r, hret⟩ | hnil
+  · exact life_close_barrier hsan hr t r hret
+  · have hc := (life_inv_reach hsan hr).ctl
+    have hcd := hc.nil_cd t hnil
+    rw [hc.cd_iff] at hcd
+    have h8 : 8 ≤ ph (wpc s) := by simpa using hcd
+    cases hw : s.winner with
+    | none => rw [wpc, hw] at h8; simp [ph] at h8
+    | some w =>
+      rw [wpc_of_winner hw] at h8
+      cases hp : s.closers w with
+      | returned r => exact life_close_barrier hsan hr w r hp
+      | _ => rw [hp] at h8; simp [ph] at h8
+
+/-- a losing call that has not returned yet waits: at `<-s.closeDone` its step is enabled iff the channel is closed,
+and the channel is closed iff the winning call has returned -/
+theorem life_wait_enabled_iff {s : State} {es : List Ev} (hsan : ∀ k, san (san k) = san k) {hl cl : Bool}
+    {er : Option Nat} (hr : run san (init san hl cl er) es = some s) (t : Nat) (hpc : s.closers t = .waitWinner)
+    (c : Nat) :
+    ((step san s (.closer t c)).isSome = true ↔ ∃ w r, s.winner = some w ∧ s.closers w = .returned r) := by
+  have hc := (life_inv_reach hsan hr).ctl
+  have hen : (step san s (.closer t c)).isSome = s.closeDone := by
+    simp only [step, hpc]; cases s.closeDone <;> rfl
+  rw [hen, hc.cd_iff]
+  constructor
+  · intro hcd
+    have h8 : 8 ≤ ph (wpc s) := by simpa using hcd
+    cases hw : s.winner with
+    | none => rw [wpc, hw] at h8; simp [ph] at h8
+    | some w =>
+      rw [wpc_of_winner hw] at h8
+      cases hp : s.closers w with
+      | returned r => exact ⟨w, r, rfl, hp⟩
+      | _ => rw [hp] at h8; simp [ph] at h8
+  · rintro ⟨w, r, hw, hp⟩
+    rw [wpc_of_winner hw, hp]; simp [ph]
+
 
 /-! ## T4 — silence of the root's own threads after the return -/
 
@@ -414,7 +466,7 @@ theorem silent_step {s s' : State} {e : Ev} (hctl : Ctl s) {w : Nat} {r : Option
   have hwin : s.winner = some w := hctl.winner_of w (by rw [hret]; simp [ph])
   have hex : s.loop = .exited := hctl.loopEx (by rw [wpc_of_winner hwin, hret]; simp [ph])
   have hrc : s.rootClosed = true := by rw [hctl.closed_iff, hwin]; rfl
-  have hoth : ∀ t, t ≠ w → s.closers t = .start ∨ s.closers t = .returnedNil :=
+  have hoth : ∀ t, t ≠ w → s.closers t = .start ∨ s.closers t = .returnedNil ∨ s.closers t = .waitWinner :=
     fun t ht => hctl.others t (by rw [hwin]; intro e; exact ht (Option.some.inj e).symm)
   cases e with
   | record sid =>
@@ -440,17 +492,26 @@ theorem silent_step {s s' : State} {e : Ev} (hctl : Ctl s) {w : Nat} {r : Option
   | closer t c =>
     by_cases ht : t = w
     · subst ht; simp [step, hret] at hs
-    · rcases hoth t ht with h1 | h1
+    · rcases hoth t ht with h1 | h1 | h1
       · simp only [step, h1, hrc, if_true, Option.some.injEq] at hs
         subst hs
         refine ⟨?_, rfl, fun _ => rfl⟩
-        show (if w = t then CPc.returnedNil else s.closers w) = _
+        show (if w = t then CPc.waitWinner else s.closers w) = _
         rw [if_neg (fun e => ht e.symm)]; exact hret
       · simp [step, h1] at hs
+      · -- a call waiting at `<-s.closeDone` returns nil
+        simp only [step, h1] at hs
+        split at hs
+        · simp only [Option.some.injEq] at hs
+          subst hs
+          refine ⟨?_, rfl, fun _ => rfl⟩
+          show (if w = t then CPc.returnedNil else s.closers w) = _
+          rw [if_neg (fun e => ht e.symm)]; exact hret
+        · cases hs
   | closerEnd t =>
     by_cases ht : t = w
     · subst ht; simp [step, hret] at hs
-    · rcases hoth t ht with h1 | h1 <;> simp [step, h1] at hs
+    · rcases hoth t ht with h1 | h1 | h1 <;> simp [step, h1] at hs
 
 /-- **C08 over a live registry, silence (partial).**  Once the winning `Close` has returned, in every later state:
 the call is still returned, the loop goroutine is still gone, the log (flushes, reporter close) is what it was,
@@ -636,6 +697,27 @@ example : ∃ s, run id (init id false true) repairedFlushRun = some s ∧ s.clo
   · cases hl
   · simp only [List.cons.injEq, LogEv.reporterClose.injEq, LogEv.flush.injEq] at hl
     exact hl.2.1.symm
+
+/-- the run above with a second, concurrent `Close` call (call 1) that loses the CAS while call 0 is about to purge:
+call 1 waits at `<-s.closeDone` -/
+def twoCallsRun : List Ev :=
+  lateFlushRun.take 23 ++ [.closer 1 0, .step 2 0, .step 2 0, .closer 0 0, .closer 0 0]
+
+set_option maxRecDepth 100000 in
+/-- **repair D17 on a run**: with call 0 at its reporter close, call 1 is at `waitWinner`, `closeDone` is open and call
+1's step is NOT enabled; call 0's last step closes `closeDone`; only then call 1 returns nil — the hypotheses of
+`life_every_close_call_is_a_barrier` (second case) are satisfiable -/
+theorem losing_close_call_waits_for_the_winner :
+    (run id (init id false true) twoCallsRun).map
+        (fun s => (s.closers 0, s.closers 1, s.closeDone, (step id s (.closer 1 0)).isSome))
+      = some (.reporterClose, .waitWinner, false, false) ∧
+    (run id (init id false true) (twoCallsRun ++ [.closer 0 0])).map
+        (fun s => (s.closers 0, s.closers 1, s.closeDone, (step id s (.closer 1 0)).isSome))
+      = some (.returned none, .waitWinner, true, true) ∧
+    (run id (init id false true) (twoCallsRun ++ [.closer 0 0, .closer 1 0])).map
+        (fun s => (s.closers 0, s.closers 1, s.log, s.reg.delivered))
+      = some (.returned none, .returnedNil, [.reporterClose 1, .flush 1], [{ id := 0, scope := 1, pre := true }]) := by
+  refine ⟨?_, ?_, ?_⟩ <;> decide
 
 
 /-! ## non-vacuity: a subscope closed and re-acquired during a periodic pass, then root `Close`
